@@ -657,6 +657,7 @@ func TestC13(t *testing.T) {
 		}
 		fmt.Fprintf(os.Stderr, "[C13] %-55s executions=%d violations=%d capped=%v\n", sc.Name, s.Execs, nv, s.Capped)
 	}
+	seqCounts := sequenceFamilies(rep)
 	rr := <-rc
 	if rr.err != nil {
 		rep.EngineError("race companion: %v", rr.err)
@@ -670,6 +671,7 @@ func TestC13(t *testing.T) {
 	rep.Coverage["distinct_outcomes"] = len(total.Outcomes)
 	rep.Coverage["scenarios"] = perScenario
 	rep.Coverage["race_companion"] = map[string]any{"constructors_exercised": rr.n, "race_reports": rr.races, "meaning": "free-running -race pass; a report is a violation, silence is 'no race observed', not coverage"}
+	rep.Coverage["sequential_families"] = map[string]any{"sequences_run": seqCounts, "bound": "shared-file: every sequence of 1..4 calls over {L1.Log, L1.LogError, L2.Log, L2.LogError}, two file loggers on one path; shared-slice: two composites from one slice with spare capacity, Append in both orders or on one side only, one message through each in both orders, both constructors"}
 	rep.Coverage["exhaustive"] = exhaustive
 	rep.Coverage["samples"] = total.Samples
 	rep.Coverage["explanation"] = "states = distinct schedule prefixes of the instrumented logs package (explorer-visible locks, two-step buffer append, one scheduling point per sink write, virtual-time poller) within the deviation bound"
@@ -682,6 +684,24 @@ func TestC13(t *testing.T) {
 }
 
 func replay(t *testing.T, path string) {
+	if b, err := os.ReadFile(path); err == nil {
+		var f struct {
+			Replay seqCase `json:"replay"`
+		}
+		if json.Unmarshal(b, &f) == nil && strings.HasPrefix(f.Replay.Scenario, "sequence:") {
+			dir, _ := os.MkdirTemp("", "verif-c13-seq-")
+			defer os.RemoveAll(dir)
+			sig, detail := runSeqCase(dir, f.Replay)
+			fmt.Printf("replay: %s %s calls=%v\n", f.Replay.Scenario, f.Replay.Variant, f.Replay.Calls)
+			if sig != "" {
+				fmt.Printf("VIOLATION property=C13 replay=%s signature=%s\n%s\n", path, sig, detail)
+				ev.ExitCode = 1
+			} else {
+				fmt.Println("replay: no violation")
+			}
+			return
+		}
+	}
 	ce, err := gosim.LoadCounterexample(path)
 	if err != nil {
 		t.Fatal(err)
